@@ -18,3 +18,7 @@ reg("C04", "other", [T.t_codes], "dev", "dev")
 import r_len as L
 reg("C02", "proof", [L.l_eq, L.l_hdr, L.l_fixed, L.s_dbg], "dev", "dev")
 PROPS["C10"]["rules"].append(L.t_ctl)
+import r_props as P
+PROPS["C04"]["rules"] += [P.t_props, P.h_proplen, P.h_dup, P.h_bytevals, P.l_propdec]
+PROPS["C01"]["rules"] += [P.t_prop3]
+PROPS["C10"]["rules"] += [P.t_propid]
